@@ -48,7 +48,7 @@ try:
         demo=[f for f in os.listdir(d) if f.endswith('_test.go')][0]
         dst=os.path.join(SW,meta['demo_path'])
         shutil.copy(os.path.join(d,demo),dst)
-        cmd=re.sub(r'GOFLAGS=\S+|GOPROXY=\S+|GOSUMDB=\S+|GOTOOLCHAIN=\S+','',meta['demo_cmd'])
+        cmd=re.sub(r'GOFLAGS=[^\s;]+|GOPROXY=[^\s;]+|GOSUMDB=[^\s;]+|GOTOOLCHAIN=[^\s;]+','',meta['demo_cmd'])
         cmd=re.sub(r'^\s*export\s*;','',cmd)
         cmd=re.sub(r'/tmp/seed/%s(?=[/\s]|$)'%pid, SW, cmd)
         assert '/tmp/seed' not in cmd, cmd
